@@ -377,7 +377,7 @@ func checkC07(cc Case, r *simrt.Result) *Outcome {
 }
 
 func init() {
-	Props["C07"] = &Scenario{Gen: genC07, Check: checkC07, MaxSteps: 40000}
+	Props["C07"] = &Scenario{Gen: genC07, Check: checkC07, MaxSteps: 150000} // (longest ordinary runs: about 20 000 steps; a busy loop runs into any cap)
 }
 
 // stripLine turns "file.go:123@Func+w" into "file.go@Func".
